@@ -607,7 +607,24 @@ func constByteOrder(w *World, r *Report, pkg string) {
 
 // appendChainParams returns, for the value hashed, the parameter indices whose
 // bytes are appended, in order.
+// appendChainSource: the parameter of fn that value y is (a slice of, or a fixed-width encoding of).
+func appendChainSource(fn *ssa.Function, y ssa.Value) (int, bool) {
+	var got = -1
+	probe := []ssa.Value{y}
+	_ = probe
+	order, ok := appendChainParamsOf(fn, nil, y)
+	if ok && len(order) == 1 {
+		got = order[0]
+	}
+	return got, got >= 0
+}
+
 func appendChainParams(fn *ssa.Function, v ssa.Value) ([]int, bool) {
+	return appendChainParamsOf(fn, v, nil)
+}
+
+// appendChainParamsOf reads the append chain v; with v == nil it only resolves the single value one.
+func appendChainParamsOf(fn *ssa.Function, v ssa.Value, one ssa.Value) ([]int, bool) {
 	paramIdx := func(p ssa.Value) int {
 		for i, q := range fn.Params {
 			if ssa.Value(q) == p {
@@ -674,6 +691,13 @@ func appendChainParams(fn *ssa.Function, v ssa.Value) ([]int, bool) {
 		order = append(order, i)
 		return true
 	}
+	if v == nil {
+		i := src(one)
+		if i < 0 {
+			return nil, false
+		}
+		return []int{i}, true
+	}
 	ok := walk(v)
 	return order, ok
 }
@@ -700,6 +724,21 @@ func constHashOrders(w *World, r *Report) {
 			}
 		}
 		if sum == nil {
+			// the streaming form: h := md5.New(); h.Write(a); h.Write(b); ...; h.Sum(...)
+			if order, at, ok := streamedHashParams(fn); ok {
+				same := len(order) == len(spec.want)
+				for i := range spec.want {
+					if i >= len(order) || order[i] != spec.want[i] {
+						same = false
+					}
+				}
+				if same {
+					r.ok("CONST", key, at, "hash input is "+spec.text+" (parameters written to md5.New() in declaration order)")
+				} else {
+					r.bad("CONST", key, at, fmt.Sprintf("hash input writes parameters in order %v, the specification order is %s", order, spec.text))
+				}
+				continue
+			}
 			r.bad("CONST", key, w.pos(fn.Pos()), "no call of md5.Sum")
 			continue
 		}
@@ -844,7 +883,11 @@ func constPar1(w *World, r *Report) {
 	// readHeader: version (low 32 bits) == 0x00010000, file list offset == 0x60
 	if fn := w.Fn("par1.readHeader"); fn != nil {
 		verOK, offOK := "", ""
-		for _, b := range fn.Blocks {
+		var hdrBlocks []*ssa.BasicBlock
+		for _, rf := range region(fn) {
+			hdrBlocks = append(hdrBlocks, rf.Blocks...)
+		}
+		for _, b := range hdrBlocks {
 			for _, in := range b.Instrs {
 				bo, ok := in.(*ssa.BinOp)
 				if !ok || (bo.Op != token.NEQ && bo.Op != token.EQL) {
@@ -1260,4 +1303,71 @@ func packetEmissions(w *World, wf *ssa.Function) []packetEmission {
 		out = append(out, packetEmission{c, c.Common().Args[ti], c.Common().Args[bi]})
 	}
 	return out
+}
+
+// streamedHashParams: fn feeds an md5.New() hash with Write calls that are totally ordered by
+// dominance (straight-line code), each of a parameter (or a slice of / encoding of one), and takes
+// Sum afterwards. Returns the parameter indices in write order.
+func streamedHashParams(fn *ssa.Function) ([]int, string, bool) {
+	var h *ssa.Call
+	for _, c := range callInstrs(fn) {
+		if f := c.Common().StaticCallee(); f != nil && f.String() == "crypto/md5.New" {
+			if h != nil {
+				return nil, "", false
+			}
+			h, _ = c.(*ssa.Call)
+		}
+	}
+	if h == nil {
+		return nil, "", false
+	}
+	var writes []*ssa.Call
+	var sum *ssa.Call
+	for _, ref := range referrersOf(h) {
+		c, ok := ref.(*ssa.Call)
+		if !ok || !c.Call.IsInvoke() || c.Call.Value != ssa.Value(h) {
+			return nil, "", false // the hash escapes
+		}
+		switch c.Call.Method.Name() {
+		case "Write":
+			writes = append(writes, c)
+		case "Sum":
+			if sum != nil {
+				return nil, "", false
+			}
+			sum = c
+		default:
+			return nil, "", false
+		}
+	}
+	if sum == nil || len(writes) == 0 {
+		return nil, "", false
+	}
+	// order by dominance
+	for i := 0; i < len(writes); i++ {
+		for j := i + 1; j < len(writes); j++ {
+			if instrDominates(writes[j], writes[i]) {
+				writes[i], writes[j] = writes[j], writes[i]
+			}
+		}
+	}
+	for i := 0; i+1 < len(writes); i++ {
+		if !instrDominates(writes[i], writes[i+1]) {
+			return nil, "", false
+		}
+	}
+	if !instrDominates(writes[len(writes)-1], sum) {
+		return nil, "", false
+	}
+	var order []int
+	for _, wc := range writes {
+		// reuse the append-chain reader on a synthetic one-element chain: the written value's source
+		o, ok := appendChainSource(fn, wc.Call.Args[0])
+		if !ok {
+			return nil, "", false
+		}
+		order = append(order, o)
+	}
+	pos := fn.Prog.Fset.Position(sum.Pos())
+	return order, fmt.Sprintf("%s:%d", pos.Filename[strings.LastIndex(pos.Filename, "/par")+1:], pos.Line), true
 }
